@@ -139,8 +139,6 @@ def match_finding(finding, failure):
     case = failure["case"]
     fid = finding["id"]
     what = failure.get("what", "")
-    if fid == "F21":
-        return isinstance(case, list) and "ValueError" in what and "10**4" in str(case[1])
     if not isinstance(case, str):
         return False
     if fid == "F18":
